@@ -395,7 +395,12 @@ class AbsExec:
                 if val is NotImplemented:
                     cb = self.F.bodies.get(fk.d)
                     stack = getattr(self, "inline_stack", ())
-                    if cb is not None and self.inline(fk.d) and fk.d not in stack and fk.d != getattr(self, "root_path", None):
+                    if cb is not None and cb.rec["kind"] == "Closure" and t.get("fn") and (t["fn"].get("def") or "").startswith(("core::ops::function::Fn", "core::ops::Fn")) and len(args) == 2:
+                        # `closure(a, b)` resolved to the closure body: the Fn* traits pass the arguments packed in one tuple
+                        packed = deref_value(self, args[1])
+                        if isinstance(packed, Tup) and cb.arg_count == 1 + len(packed.items):
+                            args = [args[0]] + list(packed.items)
+                    if cb is not None and (self.inline(fk.d) or cb.rec["kind"] == "Closure") and fk.d not in stack and fk.d != getattr(self, "root_path", None):
                         sub = AbsExec(self.F, self.domain, self.max_steps, self.max_paths, self.inline)
                         sub.steps = self.steps
                         sub.depth = getattr(self, "depth", 0) + 1
@@ -738,6 +743,13 @@ def closure_builtin(ex, fk, args, term, fr):
     if not args:
         return NotImplemented
     v0 = deref_value(ex, args[0])
+    if n in ("call", "call_mut", "call_once") and (fk.get("trait") or "").startswith(("core::ops::function::Fn", "core::ops::Fn")) and d.startswith("core::ops") and len(args) == 2:
+        # a local closure (or fn item) called directly: `absorb(f, idx)`
+        f = v0
+        packed = deref_value(ex, args[1])
+        if ((isinstance(f, Adt) and isinstance(f.name, str) and f.name.startswith("closure:")) or (isinstance(f, tuple) and len(f) == 2 and f[0] == "fnref")) and isinstance(packed, Tup):
+            return call_value(ex, args[0] if isinstance(f, Adt) else f, list(packed.items))
+        return NotImplemented
     if isinstance(v0, Adt) and v0.name in ("core::option::Option", "core::result::Result") and isinstance(v0.variant, str):
         good = v0.variant in ("Some", "Ok")
         if n == "map" and len(args) == 2:
